@@ -200,7 +200,7 @@ func slistBig(c *ev.Case) {
 	rng := c.Rng
 	n := bigSize(rng)
 	want := c.WantSample()
-	s := &ssut{c: c, keepText: want || c.Logging(), nextVal: 100, l: new(listz.SList[int]), sparse: true}
+	s := &ssut{c: c, keepText: want || c.Logging(), nextVal: 100, l: new(listz.SList[int]), sparse: true, untouched: true, unseen: true}
 	style := rng.Intn(3)
 	c.Logf("---- the list is built with %d nodes (style %d)", n, style)
 	s.quiet = true
